@@ -1144,6 +1144,8 @@ pub fn run_c06(tier: Tier) -> ! {
     let mut sets: Vec<(Vec<u8>, u8, u8)> = vec![(vec![1, 2], 6, 1), (vec![0, 5], 6, 1), (vec![2, 4, 5], 6, 1), (vec![0, 3, 5], 6, 1), (vec![0, 1, 5], 6, 1), (vec![1, 3, 4], 6, 1), (vec![0, 2, 3, 5], 6, 1)];
     if tier == Tier::Thorough {
         sets.extend([(vec![0, 1, 2, 3], 6, 1), (vec![3, 4, 5], 6, 1), (vec![1, 6], 8, 1), (vec![0, 2, 7], 8, 2), (vec![1, 2, 4], 5, 2)]);
+        // the whole address space: time-outs of 256 slot times, GAPs of more than a hundred addresses, 63/64
+        sets.extend([(vec![0, 125], 126, 1), (vec![63, 64], 126, 1)]);
     }
     // poll schedules: periods (Tslot/div per station, cyclic) and phases (thirds of the period,
     // cyclic). Equal phases = stations polled at the very same instants (found F19).
